@@ -1,7 +1,7 @@
 (* View.v — mdspan as the triple (data handle, mapping, accessor); observers forward to the mapping.
    (Element access and the construction / assignment machine are added further below.) *)
 From Coq Require Import ZArith List Bool.
-From MdspanVerif Require Import MachInt ListAux Layouts.
+From MdspanVerif Require Import MachInt ListAux Layouts Extents Convert.
 Import ListNotations.
 Local Open Scope Z_scope.
 
@@ -22,3 +22,88 @@ Definition view_is_strided (v : view) : bool := is_strided_impl (v_map v).
 Definition view_size (t : ity) (v : view) : Z := size_impl t (exts (v_map v)).
 Definition view_empty (v : view) : bool := empty_impl (exts (v_map v)).
 Definition view_rank (v : view) : nat := length (exts (v_map v)).
+
+(* ---- element access (C03) ------------------------------------------------------------------------- *)
+Inductive form := FPack | FArray | FSpan.        (* separate indices / std::array / std::span *)
+
+(* offset handed to the accessor.  Pack forms (operator[] / operator() with separate indices):
+     mapping(static_cast<index_type>(std::move(indices))...)   — and the mapping casts again;
+   array / span forms (__callop): mapping(indices[Idxs]...) — only the mapping's own cast.
+   `args` are the mathematical values of the index arguments, of whatever (convertible) type. *)
+Definition access_offset (t : ity) (f : form) (v : view) (args : list Z) : res Z :=
+  match f with
+  | FPack => offset_impl t (v_map v) (map (wrap t) (map (wrap t) args))
+  | FArray | FSpan => offset_impl t (v_map v) (map (wrap t) args)
+  end.
+(* the element designated: accessor().access(data_handle(), offset) *)
+Definition access (t : ity) (f : form) (v : view) (args : list Z) : res (accessor * Z * Z) :=
+  rmap (fun o => (v_acc v, v_handle v, o)) (access_offset t f v args).
+(* default_accessor: access(p, i) = p[i], the element at address p + i; offset(p, i) = p + i *)
+Definition default_address (e : accessor * Z * Z) : Z := let '(_, h, o) := e in h + o.
+Definition acc_offset (a : accessor) (h i : Z) : Z := h + i.
+
+(* a heap of cells; reads and writes through a view with the default accessor *)
+Definition heap := list Z.
+Fixpoint hwrite (hp : heap) (a : nat) (x : Z) : heap :=
+  match hp, a with
+  | [], _ => []
+  | _ :: hp', O => x :: hp'
+  | c :: hp', S a' => c :: hwrite hp' a' x
+  end.
+Definition hread (hp : heap) (a : nat) : Z := nth a hp 0.
+Definition view_write (t : ity) (f : form) (v : view) (args : list Z) (x : Z) (hp : heap) : res heap :=
+  rmap (fun e => hwrite hp (Z.to_nat (default_address e)) x) (access t f v args).
+Definition view_read (t : ity) (f : form) (v : view) (args : list Z) (hp : heap) : res Z :=
+  rmap (fun e => hread hp (Z.to_nat (default_address e))) (access t f v args).
+
+(* ---- construction, copy, move, assignment, swap, conversion on a pool of views (C11) -------------- *)
+(* a pool entry: a view together with its (static) type *)
+Record entry := mkentry { en_t : ity; en_pat : Extents.pattern; en_view : view }.
+
+Inductive vop :=
+| OCopy (i : nat)                          (* push(T(pool[i]))                 copy constructor *)
+| OMove (i : nat)                          (* push(T(std::move(pool[i])))      move constructor (trivially copyable: source unchanged) *)
+| OAssign (i j : nat)                      (* pool[i] = pool[j]                same type *)
+| OMoveAssign (i j : nat)                  (* pool[i] = std::move(pool[j]) *)
+| OSwap (i j : nat)                        (* swap(pool[i], pool[j])           same type *)
+| OConvert (i : nat) (tgt : Convert.mtype) (* push(U(pool[i]))                 converting constructor *)
+| OAssignConv (i j : nat) (tgt : Convert.mtype).   (* pool[i] = U(pool[j])     assignment from a converted view *)
+
+Fixpoint set_entry (p : list entry) (i : nat) (e : entry) : list entry :=
+  match p, i with
+  | [], _ => []
+  | _ :: p', O => e :: p'
+  | x :: p', S i' => x :: set_entry p' i' e
+  end.
+
+(* converting constructor: handle copied, mapping through the mapping's converting constructor,
+   accessor through the accessor's (identity on the model's accessor state) *)
+Definition convert_entry (e : entry) (tgt : Convert.mtype) : res entry :=
+  rmap (fun m' => mkentry (Convert.mt_t tgt) (Convert.mt_pat tgt) (mkview (v_handle (en_view e)) m' (v_acc (en_view e))))
+       (Convert.conv_mapping (en_t e) (v_map (en_view e)) tgt).
+
+Definition vstep (p : list entry) (o : vop) : res (list entry) :=
+  match o with
+  | OCopy i | OMove i => match nth_error p i with Some e => Ok (p ++ [e]) | None => UB end
+  | OAssign i j | OMoveAssign i j =>
+      match nth_error p i, nth_error p j with Some _, Some e => Ok (set_entry p i e) | _, _ => UB end
+  | OSwap i j =>
+      match nth_error p i, nth_error p j with Some a, Some b => Ok (set_entry (set_entry p i b) j a) | _, _ => UB end
+  | OConvert i tgt =>
+      match nth_error p i with Some e => rmap (fun e' => p ++ [e']) (convert_entry e tgt) | None => UB end
+  | OAssignConv i j tgt =>
+      match nth_error p i, nth_error p j with
+      | Some _, Some e => rmap (fun e' => set_entry p i e') (convert_entry e tgt)
+      | _, _ => UB
+      end
+  end.
+Fixpoint vrun (p : list entry) (ops : list vop) : res (list entry) :=
+  match ops with [] => Ok p | o :: ops' => bind (vstep p o) (fun p' => vrun p' ops') end.
+
+(* the constructors of mdspan: (handle, dynamic or all extents...), (handle, extents), (handle, mapping),
+   (handle, mapping, accessor).  `mk` turns extents values into the layout's mapping. *)
+Definition ctor_from_values (t : ity) (pat : Extents.pattern) (mk : list Z -> mapping) (h : Z) (all : bool) (vals : list Z) : res entry :=
+  bind (if all then Extents.ext_from_all t pat vals else Extents.ext_from_dynamic t pat vals) (fun e =>
+  rmap (fun es => mkentry t pat (mkview h (mk es) AccDefault)) (Extents.all_extents e)).
+Definition ctor_from_mapping (t : ity) (pat : Extents.pattern) (h : Z) (m : mapping) (a : accessor) : entry :=
+  mkentry t pat (mkview h m a).
